@@ -134,9 +134,80 @@ func nameOriginOK(p *Prog, fi *FuncInfo, e ast.Expr, reserved map[string]bool, d
 		if def != nil {
 			return nameOriginOK(p, fi, def, reserved, depth+1)
 		}
+		// a string parameter of a private helper: the name is allocated by every caller
+		if v, ok := obj.(*types.Var); ok && p != nil && isParamOf(fi, v) && !fi.Obj.Exported() {
+			sig := fi.Obj.Type().(*types.Signature)
+			idx := -1
+			for i := 0; i < sig.Params().Len(); i++ {
+				if sig.Params().At(i) == v {
+					idx = i
+				}
+			}
+			n := 0
+			for _, cs := range p.Calls() {
+				f, ok := cs.Callee.(*types.Func)
+				if !ok || f.Origin() != fi.Obj.Origin() || cs.Encl == nil {
+					continue
+				}
+				n++
+				if idx < 0 || idx >= len(cs.Call.Args) {
+					return false, "parameter " + id.Name + " cannot be traced to its callers"
+				}
+				if ok, why := nameOriginOK(p, cs.Encl, cs.Call.Args[idx], reserved, depth+1); !ok {
+					return false, "caller " + cs.Encl.Name() + ": " + why
+				}
+			}
+			if _, vals := p.refSites(fi.Obj); n > 0 && len(vals) == 0 {
+				return true, "allocated by every caller of " + fi.Name()
+			}
+		}
 		return false, "variable " + id.Name + " has no allocator definition in this function"
 	}
 	return false, "name expression " + exprString(e) + " is not produced by the name allocator"
+}
+
+// originExpr resolves an identifier to the expression that defines it: the right-hand side of its (single) local
+// definition, or — for a parameter of a private helper with exactly one call site — the origin of the argument
+// passed there.  It returns the expression and the function it belongs to.
+func originExpr(p *Prog, in *FuncInfo, id *ast.Ident, depth int) (ast.Expr, *FuncInfo) {
+	info := in.Pkg.TypesInfo
+	obj := info.ObjectOf(id)
+	if obj == nil || depth > 3 {
+		return nil, nil
+	}
+	if def := localDef(info, in.Decl, obj); def != nil {
+		if id2, ok := ast.Unparen(def).(*ast.Ident); ok && id2.Name != "nil" {
+			if e, f := originExpr(p, in, id2, depth+1); e != nil {
+				return e, f
+			}
+		}
+		return def, in
+	}
+	if v, ok := obj.(*types.Var); ok && isParamOf(in, v) && !in.Obj.Exported() {
+		sig := in.Obj.Type().(*types.Signature)
+		idx := -1
+		for i := 0; i < sig.Params().Len(); i++ {
+			if sig.Params().At(i) == v {
+				idx = i
+			}
+		}
+		var site *CallSite
+		n := 0
+		for _, cs := range p.Calls() {
+			if f, ok := cs.Callee.(*types.Func); ok && f.Origin() == in.Obj.Origin() {
+				n++
+				site = cs
+			}
+		}
+		if n == 1 && site.Encl != nil && idx >= 0 && idx < len(site.Call.Args) {
+			a := ast.Unparen(site.Call.Args[idx])
+			if id2, ok := a.(*ast.Ident); ok {
+				return originExpr(p, site.Encl, id2, depth+1)
+			}
+			return a, site.Encl
+		}
+	}
+	return nil, nil
 }
 
 func isNamerAlloc(fn *types.Func) bool {
@@ -318,32 +389,35 @@ func c01R1(p *Prog, r *Report) {
 		info := fi.Pkg.TypesInfo
 		ok := false
 		why := "the Definition literal of a generated method has no Name from g.namer.Name(…)"
-		ast.Inspect(fi.Decl, func(nn ast.Node) bool {
-			cl, isCl := nn.(*ast.CompositeLit)
-			if !isCl || !isNamed(info.TypeOf(cl), modPath+"/method", "Definition") {
-				return true
-			}
-			v := compositeField(cl, "Name")
-			id, isID := ast.Unparen(v).(*ast.Ident)
-			if !isID {
-				return true
-			}
-			def := localDef(info, fi.Decl, info.ObjectOf(id))
-			call, isCall := ast.Unparen(def).(*ast.CallExpr)
-			if !isCall {
-				return true
-			}
-			fn, isFn := calleeObj(info, call).(*types.Func)
-			sel, isSel := ast.Unparen(call.Fun).(*ast.SelectorExpr)
-			if isFn && isSel && isNamerAlloc(fn) && fn.Name() == "Name" {
-				if isFieldSel(info, sel.X, modPath+"/generator", "generator", "namer") {
-					ok = true
-				} else {
-					why = "the generated function name is allocated from " + exprString(sel.X) + " instead of the file-level allocator g.namer: two converters/methods in one file could get the same helper name"
+		for _, rf := range p.Region("generator.(*generator).createSubMethod") {
+			rf := rf
+			ast.Inspect(rf.Decl, func(nn ast.Node) bool {
+				cl, isCl := nn.(*ast.CompositeLit)
+				if !isCl || !isNamed(info.TypeOf(cl), modPath+"/method", "Definition") {
+					return true
 				}
-			}
-			return true
-		})
+				v := compositeField(cl, "Name")
+				id, isID := ast.Unparen(v).(*ast.Ident)
+				if !isID {
+					return true
+				}
+				def, _ := originExpr(p, rf, id, 0)
+				call, isCall := ast.Unparen(def).(*ast.CallExpr)
+				if !isCall {
+					return true
+				}
+				fn, isFn := calleeObj(info, call).(*types.Func)
+				sel, isSel := ast.Unparen(call.Fun).(*ast.SelectorExpr)
+				if isFn && isSel && isNamerAlloc(fn) && fn.Name() == "Name" {
+					if isFieldSel(info, sel.X, modPath+"/generator", "generator", "namer") {
+						ok = true
+					} else {
+						why = "the generated function name is allocated from " + exprString(sel.X) + " instead of the file-level allocator g.namer: two converters/methods in one file could get the same helper name"
+					}
+				}
+				return true
+			})
+		}
 		if ok {
 			r.OK("generator.(*generator).createSubMethod/top-level name", p.PosStr(fi.Decl.Pos()), "Definition.Name = g.namer.Name(…) (file-level allocator)")
 		} else {
